@@ -56,9 +56,10 @@ MUTATING = {"SET", "MSET", "GETSET", "SETNX", "SETEX", "PSETEX", "APPEND", "SETR
             "DEL", "RENAME", "RENAMENX", "FLUSHDB", "FLUSHALL", "EXPIRE", "PEXPIRE", "PERSIST",
             "LPUSH", "RPUSH", "LPOP", "RPOP", "LSET", "LTRIM", "LREM", "SADD", "SREM", "SPOP", "HSET", "HMSET", "HDEL", "HINCRBY",
             "ZADD", "XADD", "ZREM", "ZINCRBY", "ZPOPMIN", "ZPOPMAX", "XTRIM", "XDEL", "XGROUP", "XREADGROUP", "XACK", "XCLAIM"}
-CAUSES = ["names", "blpop", "select", "random", "wake", "evalsha"]
+CAUSES = ["names", "blpop", "select", "random", "random-script", "wake", "evalsha"]
 CAUSE_MATCH = {"names": "unlogged-name", "blpop": "blocking-pop-immediate-unlogged", "select": "select-never-logged",
-               "random": "random-outcome-logged-verbatim", "wake": "wake-pop-unlogged", "evalsha": "evalsha-logged-without-script"}
+               "random": "random-outcome-logged-verbatim", "random-script": "random-outcome-in-script-logged-verbatim",
+               "wake": "wake-pop-unlogged", "evalsha": "evalsha-logged-without-script"}
 
 
 def findings():
@@ -429,17 +430,20 @@ def spec_log(events, write_table, repairs, evalsha_db0=False):
             # (on a tree where EVALSHA ignores the selected database — C18's finding — the script ran in db 0)
             emit([b"EVAL", e.script] + e.raw[2:], 0 if evalsha_db0 else conn_db)
             continue
-        if "random" in repairs and (logged or "names" in repairs):
-            if eff == "SPOP" and len(inner) >= 2:
-                got = popped_members(e.reply)
+        in_script = inner is not e.raw
+        if (eff == "SPOP" or (eff == "XADD" and len(inner) >= 3 and inner[2] == b"*")) and \
+                ("random-script" if in_script else "random") in repairs and (logged or "names" in repairs):
+            # logged by its effect, once the outcome is known: SREM of what was taken / XADD with the id assigned
+            if eff == "SPOP":
+                got = popped_members(e.reply) if len(inner) >= 2 else []
                 if got:
                     emit([b"SREM", inner[1]] + got, conn_db)
                     continue
-                if e.reply is not None and e.reply[0] != "e":
-                    continue            # nothing was taken
-            if eff == "XADD" and len(inner) >= 3 and inner[2] == b"*" and e.reply is not None and e.reply[0] == "b":
+            elif e.reply is not None and e.reply[0] == "b":
                 emit([inner[0], inner[1], e.reply[1]] + inner[3:], conn_db)
                 continue
+            if not in_script or (e.reply is not None and e.reply[0] != "e"):
+                continue            # nothing was taken / assigned: no entry (a refused script is logged verbatim all the same)
         if logged:
             emit(e.raw, conn_db)
         elif "names" in repairs and name in MUTATING:
@@ -460,6 +464,10 @@ class Runner:
             self.base.add("wake")
         if facts.get("blockingPopLogged"):
             self.base.add("blpop")
+        if facts.get("randomByEffect"):
+            self.base.add("random")
+        if facts.get("evalshaAsEval"):
+            self.base.add("evalsha")
         self.causes = [c for c in CAUSES if c not in self.base]
         self.model = lean_driver("aof")
         self.live = None
@@ -497,7 +505,8 @@ class Runner:
 
     def configure_model(self):
         names = "|".join(sorted(self.table)) if self.table else "."
-        if self.model.ask("cfg %s %d %d" % (names, 1 if self.facts.get("selectTracked") else 0, 1 if self.facts.get("wakeLogs") else 0)) != "ok":
+        if self.model.ask("cfg %s %d %d %d" % (names, 1 if self.facts.get("selectTracked") else 0, 1 if self.facts.get("wakeLogs") else 0,
+                                               1 if self.facts.get("randomByEffect") else 0)) != "ok":
             raise InternalError("drv_aof refused cfg")
 
     def now(self):
@@ -545,10 +554,15 @@ class Runner:
         if e.kind == "wake":
             a = self.ask("ev wake %d %d %s %s" % (e.db, now, "L" if e.left else "R", hx(e.key)))
         else:
-            obs = "_"
+            obs, raw, inner = "_", e.raw, e.inner()
             if e.eff() in ("SPOP", "SRANDMEMBER", "RANDOMKEY") and e.reply is not None and e.reply[0] != "e":
                 obs = observed(e.eff(), e.reply)
-            a = self.ask("ev cmd %d %d %s %s" % (1 if e.via_exec else 0, now, obs, " ".join(hx(x) for x in e.raw)))
+            elif e.eff() == "XADD" and len(inner) >= 3 and inner[2] == b"*" and e.reply is not None and e.reply[0] == "b":
+                obs = hx(e.reply[1])           # the id the clock assigned
+            if e.name() == "EVALSHA" and self.facts.get("evalshaAsEval") and getattr(e, "script", None) is not None \
+                    and not (e.reply is not None and e.reply[0] == "e" and e.reply[1].startswith(b"NOSCRIPT")):
+                raw = [b"EVAL", e.script] + e.raw[2:]      # what handle_evalsha_command executes and appends
+            a = self.ask("ev cmd %d %d %s %s" % (1 if e.via_exec else 0, now, obs, " ".join(hx(x) for x in raw)))
         n, cur, cov, inm = a.split(" # ")
         e.model_entries, e.model_cur, e.covered, e.in_model = int(n), int(cur), cov == "1", inm == "1"
         return e
@@ -846,7 +860,7 @@ def judge(R, plan, db, ks_only, fs, tag, check_every_command=False):
                 else:
                     res["disagree"].append({"kind": key, "why": "Lean `live` and the live server hold different datasets in db %d" % d,
                                             "model": ml[:600], "impl": model_view(live[d])[:600], "history": hist})
-            if not any(e.kind == "cmd" and e.eff() == "SPOP" and e.model_entries > 0 for e in events):
+            if not any(e.kind == "cmd" and e.eff() == "SPOP" and e.model_entries > 0 and (e.name() == "EVAL" or not R.facts.get("randomByEffect")) for e in events):
                 mr = R.ask("replaydump %d %d %d" % (now + 5, d, now + 10))
                 rep.evaluations += 1
                 if mr != model_view(rp[d]) and not has_script and R.sabotage == "":
@@ -881,6 +895,7 @@ def witness_plans():
         ("select", 2, [["direct", S("SET", "k", "db2")]]),
         ("random", 0, [["direct", S("SADD", "s", "a", "b", "c", "d", "e", "f", "g", "h")], ["direct", S("SPOP", "s", "4")]]),
         ("random", 0, [["direct", S("XADD", "x", "*", "f", "v")]]),
+        ("random-script", 0, [["direct", S("SADD", "s", "a", "b", "c", "d", "e", "f", "g", "h")], ["script", S("SPOP", "s", "4")]]),
         ("wake", 0, [["bpop", hx(b"q"), "L", S("RPUSH", "q", "served"), "direct"]]),
         ("evalsha", 0, [["evalsha", hx(b"return redis.call('SET', ARGV[1], ARGV[2])"), S("k", "v")]]),
     ]
